@@ -87,7 +87,6 @@ pub fn rules() -> Vec<Rewrite> { vec![
 
     rw!("if-false";  "(if false ?then ?else)" => "?else"),
     rw!("if-true";   "(if true ?then ?else)" => "?then"),
-    rw!("if-not";    "(if (not ?cond) ?then ?else)" => "(if ?cond ?else ?then)"),
 
     rw!("avg";       "(avg ?a)" => "(/ (sum ?a) (count ?a))"),
 
